@@ -218,3 +218,58 @@ func VerifC08Siblings() {
 func gNameFree(tag string) string { return vString(tag, 1) }
 
 var _ = datalog.OFFSET
+
+// VerifC08Envelope: sibling attenuations of a parent with 0..4 blocks. The envelope (signed blocks,
+// proof) of each child must stay exactly what it was when the child was created, whatever is later
+// derived from the same parent: serialized form, revocation ids and verifiability after a reload.
+func VerifC08Envelope() {
+	vForbidPanic("C08")
+	vTimerMode(0)
+	nb := vChoose("parent-blocks", vParam("maxblocks")+1)
+	var blocks []gBlock
+	for i := 0; i < nb; i++ {
+		blocks = append(blocks, gBlock{facts: []gAtom{{name: "u", c: int64(i)}}})
+	}
+	g := gBuildToken(gBlock{facts: []gAtom{{name: "p", c: 0}}}, blocks)
+	parent := g.tok
+	if vChoose("parent-reloaded", 2) == 1 {
+		parent = c16Reload(parent)
+		vLabel("parent reloaded from bytes")
+	}
+	snaps := []*c08Snap{c08Take(parent, "parent")}
+	derive := func(k int) *Biscuit {
+		switch vChoose("derivation", 2) {
+		case 0:
+			bb := parent.CreateBlock()
+			bb.AddFact(Fact{Predicate{Name: "child", IDs: []Term{Integer(k)}}})
+			t, err := parent.Append(g.rng, bb.Build())
+			if err != nil {
+				return nil
+			}
+			return t
+		default:
+			s, err := parent.Seal(g.rng)
+			if err != nil {
+				return nil
+			}
+			return s
+		}
+	}
+	for k := 0; k < 2; k++ {
+		c := derive(k)
+		if c == nil {
+			continue
+		}
+		snaps = append(snaps, c08Take(c, "child"))
+		for _, s := range snaps {
+			vAssert(s.same(), "C08.envelope-unchanged."+s.what)
+		}
+	}
+	// every token still verifies after a trip through bytes
+	for _, s := range snaps {
+		r := c16Reload(s.tok)
+		_, err := r.AuthorizerFor(WithSingularRootPublicKey(g.rootPub))
+		vAssert(err == nil, "C08.still-verifies."+s.what)
+	}
+	vCover("done")
+}
